@@ -81,6 +81,11 @@ def main():
     if rc:
         print('cannot apply to /repo', out); return 2
     det = meta.setdefault('detection', {})
+    saved = {}
+    for c in checks:        # the evidence files must keep describing the unchanged tree
+        ev = os.path.join(V, 'evidence', c + '.json')
+        if os.path.exists(ev):
+            saved[ev] = open(ev).read()
     try:
         for c in checks:
             t = time.time()
@@ -91,6 +96,8 @@ def main():
                                    'tail': out.strip().splitlines()[-1][:300] if out.strip() else ''}
             print(f'{a.name}: check {c} {a.tier}: exit={rc} violations={len(viol)} clauses={clauses[:6]}')
     finally:
+        for ev, txt in saved.items():
+            open(ev, 'w').write(txt)
         sh('git -C /repo checkout -- .')
         left = sh('git -C /repo status --porcelain')[1].strip()
         if left:
